@@ -17,7 +17,7 @@ PIPE_NOTE = ("Trusted: TLC, the flatbuffer object API (synthesis and projection)
              "injected generic statistics.")
 
 CHECKS = {
-    "C01": dict(engine="pipeline", ref="4 C01", text=PIPE_TEXT + " The performer's hook events (one per applied instruction: operator list, outputs, id maps) are validated step by step against PipelineTrace.tla (trace acceptance), so every intermediate state of the rewrite is a state the specification allows. The last sentence of C01 (interpreter allocates and invokes) is an interpreter observation made in a forked child.", note=PIPE_NOTE + " Needs hook AI_EDGE_QUANTIZER_VERIF_TRACE (H2) for the step-level validation.",
+    "C01": dict(engine="pipeline", ref="4 C01", text=PIPE_TEXT + " The performer's hook events (one per applied instruction: operator list, outputs, id maps) are validated step by step against PipelineTrace.tla (trace acceptance), so every intermediate state of the rewrite is a state the specification allows. The one transformation that is not a QUANTIZE/DEQUANTIZE insertion - the block-wise (emulated sub-channel) replacement of FULLY_CONNECTED - has its own specification (Subchannel.tla: one action per replaced operator, C01's clauses from GraphWF.tla as invariants of every state); every terminal state is replayed (exact agreement of operators, wiring, names) and TLC (ObservedSubchannel.tla) evaluates the clauses on the returned graph. The last sentence of C01 (interpreter allocates and invokes) is an interpreter observation made in a forked child.", note=PIPE_NOTE + " Needs hook AI_EDGE_QUANTIZER_VERIF_TRACE (H2) for the step-level validation.",
                 tech="TLA+ model checking (TLC) of Pipeline.tla + spec->code replay + step-level trace validation (PipelineTrace.tla) + TLC evaluation of GraphProps on observed states"),
     "C02": dict(engine="pipeline", ref="4 C02", text=PIPE_TEXT, note=PIPE_NOTE + " Known finding F7 (output renamed by an inserted Q/DQ) is excused clause-precisely by GraphProps!KF7.",
                 tech="TLA+ model checking (TLC) of Pipeline.tla + spec->code replay + TLC evaluation of GraphProps!Skeleton on observed states"),
@@ -25,11 +25,11 @@ CHECKS = {
                 tech="TLA+ model checking (TLC) of Pipeline.tla + spec->code replay + TLC evaluation of GraphProps!ModesRespected on observed states"),
     "C04": dict(engine="pipeline", ref="4 C04", text=("The terminal state of every scenario of Pipeline.tla (enumerated by TLC, or the specification run on random graphs via PipelineFrom.tla) carries a symbolic parameter term per tensor; the harness resolves each term against on-grid statistics and constants, TLC (QuantMathExt.tla, exact rationals) computes the expected zero points and scales and judges the bytes the implementation stored; annotations are compared with TLC's values and TLC (Observed.tla) evaluates the relational clauses on the observed graph. ") + "C04: dtype, lengths, quantised dimension (table from the TFLite spec), zero point (exact; either neighbour on an exact tie TLC detects), scale (1e-6 relative), bias = input x weight scale, fixed ranges, ParamRelations (same-as-input / concatenation sharing).", note=PIPE_NOTE + " Statistics and constants on a dyadic grid; numpy trusted for per-channel min/max.",
                 tech="TLA+ model checking (TLC): Pipeline.tla symbolic parameters + exact-rational reference QuantMathExt.tla + spec->code comparison of annotations"),
-    "C05": dict(engine="pipeline", ref="4 C05", text=("The terminal state of every scenario of Pipeline.tla (enumerated by TLC, or the specification run on random graphs via PipelineFrom.tla) carries a symbolic parameter term per tensor; the harness resolves each term against on-grid statistics and constants, TLC (QuantMathExt.tla, exact rationals) computes the expected zero points and scales and judges the bytes the implementation stored; annotations are compared with TLC's values and TLC (Observed.tla) evaluates the relational clauses on the observed graph. ") + "C05: for every rewritten constant TLC checks byte length, int4 nibble order and padding, and the element-wise decode bound (step/2 symmetric, step asymmetric, + step/64 slack) on the stored bytes; bias codes against round_half_even(b/(s_in*s_w)); float16 constants byte-exact.", note=PIPE_NOTE + " On-grid constants (float16 cast exact); bias codes above 2^20 get float32 slack.",
+    "C05": dict(engine="pipeline", ref="4 C05", text=("The terminal state of every scenario of Pipeline.tla (enumerated by TLC, or the specification run on random graphs via PipelineFrom.tla) carries a symbolic parameter term per tensor; the harness resolves each term against on-grid statistics and constants, TLC (QuantMathExt.tla, exact rationals) computes the expected zero points and scales and judges the bytes the implementation stored; annotations are compared with TLC's values and TLC (Observed.tla) evaluates the relational clauses on the observed graph. ") + "C05: for every rewritten constant TLC checks byte length, int4 nibble order and padding, and the element-wise decode bound (step/2 symmetric, step asymmetric, + step/64 slack) on the stored bytes; bias codes against round_half_even(b/(s_in*s_w)); float16 constants byte-exact; when a run returns where the specification predicts a refusal, every rewritten constant is decoded by the same laws under the parameters the output itself carries.", note=PIPE_NOTE + " On-grid constants (float16 cast exact); bias codes above 2^20 get float32 slack.",
                 tech="TLA+ model checking (TLC): exact-rational decode of observed bytes in QuantMathExt.tla"),
-    "C15": dict(engine="pipeline", ref="4 C15", text=("The terminal state of every scenario of Pipeline.tla (enumerated by TLC, or the specification run on random graphs via PipelineFrom.tla) carries a symbolic parameter term per tensor; the harness resolves each term against on-grid statistics and constants, TLC (QuantMathExt.tla, exact rationals) computes the expected zero points and scales and judges the bytes the implementation stored; annotations are compared with TLC's values and TLC (Observed.tla) evaluates the relational clauses on the observed graph. ") + "C15: scenarios in which a constant tensor has several consumers or two tensors (same or different subgraphs) share a buffer, under every assignment of modes to the sharers: either quantize() raises (predicted raise site) or every referencing tensor's dtype/parameters agree with the stored bytes (decode per referencing tensor) and SharedConstOK holds on the observed graph.", note=PIPE_NOTE,
+    "C15": dict(engine="pipeline", ref="4 C15", text=("The terminal state of every scenario of Pipeline.tla (enumerated by TLC, or the specification run on random graphs via PipelineFrom.tla) carries a symbolic parameter term per tensor; the harness resolves each term against on-grid statistics and constants, TLC (QuantMathExt.tla, exact rationals) computes the expected zero points and scales and judges the bytes the implementation stored; annotations are compared with TLC's values and TLC (Observed.tla) evaluates the relational clauses on the observed graph. ") + "C15: scenarios in which a constant tensor has several consumers or two tensors (same or different subgraphs) share a buffer, under every assignment of modes to the sharers: either quantize() raises (predicted raise site) or every referencing tensor's dtype/parameters agree with the stored bytes (decode per referencing tensor, under the tensor's own parameters when the run left the predicted path) and SharedConstOK holds on the observed graph; sampling is stratified per (operator modes, predicted outcome).", note=PIPE_NOTE,
                 tech="TLA+ model checking (TLC) of Pipeline.tla (SharedConstOK, buffer-sharing check) + spec->code replay + exact-rational decode of shared buffers"),
-    "C19": dict(engine="pipeline", ref="4 C19", text="TLC enumerates two-subgraph scenarios of Pipeline.tla and the specification's machine is run (PipelineFrom.tla) on each subgraph as a stand-alone scenario; SubgraphIndependent (terminal state of subgraph i inside the pair = terminal state of the stand-alone run, outcomes agree) is checked over these behaviours; the same comparison is made on the implementation (two-subgraph model vs extracted single-subgraph models, same recipe, same constants, statistics merged per subgraph): operators, wiring, dtypes, annotations and constant bytes equal; TLC evaluates the graph predicates on the pair's result.",
+    "C19": dict(engine="pipeline", ref="4 C19", text="TLC enumerates two-subgraph scenarios of Pipeline.tla and the specification's machine is run (PipelineFrom.tla) on each subgraph as a stand-alone scenario; SubgraphIndependent (terminal state of subgraph i inside the pair = terminal state of the stand-alone run, outcomes agree) is checked over these behaviours; the same comparison is made on the implementation (two-subgraph model vs extracted single-subgraph models, same recipe, same constants, statistics merged per subgraph): operators, wiring, dtypes, annotations and constant bytes equal; pairs that share a constant buffer (one subgraph reading it from two operators) are included, a refusal of such a pair being accepted only where the specification predicts the C15 refusal; TLC evaluates the graph predicates on the pair's result.",
                 note=PIPE_NOTE + " SubgraphIndependent relates two behaviours: the pairing of TLC's terminal states is done by the harness.",
                 tech="TLA+ model checking (TLC) of Pipeline.tla / PipelineFrom.tla with cross-behaviour comparison + spec->code replay"),
     "C06": dict(engine="pipeline", ref="4 C06", category="translation_validation",
@@ -59,7 +59,7 @@ CHECKS = {
     "C16": dict(engine="serialize", ref="4 C16", text="Serialize.tla models the two-pass layout of _serialize_large_model (header of the final pass may shrink when a scalar field becomes default-valued); TLC checks Aligned/InBounds/Disjoint/PointsAtData; quantized models and synthetic layouts are serialised by both paths through the public quantize() (hook lowers the threshold) and the raw (offset,size,total) read with Model.GetRootAs are judged by TLC (ObservedSerialize.tla) together with byte-selection, field-equality and interpreter-equality observations.",
                 note="Needs hook AI_EDGE_QUANTIZER_VERIF_LARGE_MODEL_THRESHOLD. 3-4 buffers, sizes {none,0,1,15,16,17,33}, 32 header residues at design level; 224-640 synthetic layouts + random quantized models observed.",
                 tech="TLA+ model checking (TLC) of Serialize.tla + TLC evaluation of layout invariants on observed (offset,size) tables"),
-    "C18": dict(engine="validate", ref="4 C18", text="Validate.tla models the partition of the per-tensor comparison into inputs/outputs/constants/intermediates by successive pops with their KeyError sites; TLC checks PartitionOK and ReturnsForQuantizedPair over all name-set configurations; validate()/compare_model are run on generated models against their quantized versions and against themselves (both metrics, every signature); TLC (ObservedValidate.tla) judges the observed groups, values are compared with the metric computed from the harness's own two interpreter runs, metric laws on integer vectors.",
+    "C18": dict(engine="validate", ref="4 C18", text="Validate.tla models the partition of the per-tensor comparison into inputs/outputs/constants/intermediates by successive pops with their KeyError sites; TLC checks PartitionOK and ReturnsForQuantizedPair over all name-set configurations; validate()/compare_model are run on generated models against their quantized versions and against themselves (both metrics, every signature, every third case on the reference kernels); TLC (ObservedValidate.tla) judges the observed groups, values are compared with the metric computed from the harness's own two interpreter runs, metric laws on integer vectors.",
                 note="4 names at design level; 160 (quick) / 1500 (thorough) observed comparisons. Value equality is an interpreter observation (1e-5 relative).",
                 tech="TLA+ model checking (TLC) of Validate.tla + TLC evaluation of the partition on observed results"),
     "C17": dict(engine="quantmath", ref="4 C17", text="QuantMath.tla is an exact-rational reference of the quantisation arithmetic written from the TFLite spec; TLC checks the laws of C17 on it for every grid vector and emits expected values which the library's results must match (zero point exactly, either neighbour on an exact tie; scale within 3e-7); integer results observed from the library (all codes under parameters exactly as the library produces them, ascending inputs, per-channel tensors) are judged by TLC (ObservedMath.tla).",
@@ -94,6 +94,8 @@ def main():
       "engines": [
           {"name": "pipeline", "path": "/verif/spec/Pipeline.tla", "serves_properties": [p for p, c in CHECKS.items() if c["engine"] == "pipeline"],
            "kind_free_text": "TLA+ spec of materialiser / buffer check / instruction generator / performer + GraphProps predicates + Observed trace spec; Python conformance harness (harness/pipecheck.py)"},
+          {"name": "subchannel", "path": "/verif/spec/Subchannel.tla", "serves_properties": ["C01"],
+           "kind_free_text": "TLA+ spec of the emulated sub-channel (block-wise) replacement of FULLY_CONNECTED; GraphWF.tla (C01's clauses on a plain graph record); ObservedSubchannel.tla; replay in checks/subchannel.py"},
           {"name": "recipe", "path": "/verif/spec/Recipe.tla", "serves_properties": [p for p, c in CHECKS.items() if c["engine"] == "recipe"],
            "kind_free_text": "TLA+ spec of the recipe store and documented resolution; transition replay on RecipeManager"},
           {"name": "calib", "path": "/verif/spec/Calib.tla", "serves_properties": [p for p, c in CHECKS.items() if c["engine"] == "calib"],
